@@ -50,8 +50,9 @@ def setup(p1, p2, p3=None):
     rule, kind, xdev = P2_KINDS[p2]
     if rule is not None:
         c2 = sb.write_conf(('maildir "%s" {\n\tmatch %sheader "Subject" /message/ %s\n}\n' % (src, g2, rule % d)).encode(), name='p2.conf')
-        cmd = 'env -u VFIO_PLAN LD_PRELOAD=%s VFIO_XDEV=%s VFIO_PID=4343 VFIO_LOG=%s/p2.log HOME=%s TMPDIR=%s LC_ALL=C %s -f %s 2>%s/p2.err' % (
-            SHIM, '1' if xdev else '', sb.root, sb.home, sb.tmp, exe, c2, sb.root)
+        # (VFIO_XDEV must be absent, not empty, for the parties that rename)
+        cmd = 'env -u VFIO_PLAN -u VFIO_XDEV LD_PRELOAD=%s %sVFIO_PID=4343 VFIO_LOG=%s/p2.log HOME=%s TMPDIR=%s LC_ALL=C %s -f %s 2>%s/p2.err' % (
+            SHIM, 'VFIO_XDEV=1 ' if xdev else '', sb.root, sb.home, sb.tmp, exe, c2, sb.root)
     elif p2 == 'extrename':
         cmd = 'mv %s/new/%s %s/cur/ext-renamed:2,S 2>/dev/null' % (src, NAME, B)      # out of the maildir P1 walks
     else:
@@ -65,7 +66,7 @@ def setup(p1, p2, p3=None):
         r3 = {'move': 'move "%s"' % C, 'discard': 'discard', 'label': 'label "three"'}.get(p3)
         if r3 is not None:
             c3 = sb.write_conf(('maildir "%s" {\n\tmatch header "Subject" /message/ %s\n}\n' % (src, r3)).encode(), name='p3.conf')
-            cmd3 = 'env -u VFIO_PLAN LD_PRELOAD=%s VFIO_PID=4444 VFIO_LOG=%s/p3.log HOME=%s TMPDIR=%s LC_ALL=C %s -f %s 2>%s/p3.err' % (
+            cmd3 = 'env -u VFIO_PLAN -u VFIO_XDEV LD_PRELOAD=%s VFIO_PID=4444 VFIO_LOG=%s/p3.log HOME=%s TMPDIR=%s LC_ALL=C %s -f %s 2>%s/p3.err' % (
                 SHIM, sb.root, sb.home, sb.tmp, exe, c3, sb.root)
         elif p3 == 'extrename':
             cmd3 = 'mv %s/new/%s %s/cur/ext3-renamed:2,S 2>/dev/null' % (src, NAME, C)
